@@ -163,22 +163,30 @@ def suite_fps_cli(seed, tier):
     cases = 0
     with tempfile.TemporaryDirectory(prefix="verif_fpscli_") as tmp:
         tmp = Path(tmp)
-        for k in range(n_cases):
+        # part counts on both sides of a digit boundary of the zero-padded index (9/10/11, 99/100/101),
+        # with and without a trailing partial part
+        boundary = [(21, "m", 2), (19, "m", 2), (20, "m", 2), (31, "m", 3), (105, "m", 10), (100, "m", 10),
+                    (95, "m", 10), (10, "n", 10), (11, "n", 11), (23, "n", 10), (12, "n", 9), (202, "m", 2),
+                    (199, "m", 2), (101, "n", 100)]
+        if tier == "quick":
+            boundary = boundary[:7] + [boundary[7 + seed % 7]]
+        for k in range(n_cases + len(boundary)):
             d = tmp / f"k{k}"
             d.mkdir()
-            n = rng.randint(1, 40)
+            forced = boundary[k - n_cases] if k >= n_cases else None
+            n = forced[0] if forced else rng.randint(1, 40)
             A = np.random.default_rng(rng.randint(0, 2 ** 31)).integers(0, 256, (n, 4), dtype=np.uint8)
             src = d / "fps.npy"
             np.save(src, A)
             # ---- split by parts / by max-fps, then merge
             if n >= 2:
-                if rng.random() < 0.5:
-                    parts = rng.randint(2, min(n, 12))
+                if (forced and forced[1] == "n") or (not forced and rng.random() < 0.5):
+                    parts = forced[2] if forced else rng.randint(2, min(n, 12))
                     args = ["fps-split", str(src), "-o", str(d / "split"), "-n", str(parts)]
                     per = -(-n // parts)
                     digits = len(str(parts))
                 else:
-                    mx = rng.randint(1, n)
+                    mx = forced[2] if forced else rng.randint(1, n)
                     args = ["fps-split", str(src), "-o", str(d / "split"), "-m", str(mx)]
                     per = mx
                     digits = len(str(-(-n // mx)))
